@@ -228,6 +228,9 @@ func (s *scen) both(c *hx.Ctx, max uint64, echo *[][]byte, badID bool) *callRes 
 }
 
 func run(c *hx.Ctx) {
+	if c.St.Findings == nil {
+		c.St.Findings = []hx.Finding{} // keep the stats JSON a list for ./check --replay
+	}
 	var s *scen
 	fresh := func(start, drift uint64, contract bool) {
 		d := newDA()
